@@ -385,8 +385,7 @@ def r6_current_chunk_commit(ctx, P):
     ctx.floor(R, "current-chunk writes examined", nsets, 3)
 
 
-def r7_address_subtraction(ctx, P):
-    R = "C07.R7"
+def r7_address_subtraction(ctx, P, R="C07.R7"):
     ctx.rule(R, "the downward bump helper subtracts a caller-controlled size from an address with saturating/checked "
                 "arithmetic: a request larger than the address must end in the caller's 'does not fit' test, not in an "
                 "arithmetic-overflow panic (debug) or a wrapped address (release)")
@@ -444,4 +443,7 @@ def run(ctx, progs):
         c14.r5_claimed_is_not_alloc_failure(ctx, P, R="C07.R8")
         from . import c02
         c02.r2_overlap(ctx, P, R="C07.R9")
+        from . import c19
+        if c19.pool_bodies(P):
+            c19.r6_poison_recovered(ctx, P, R="C07.R11")
     ctx.config = None
